@@ -217,20 +217,33 @@
 (define-fun kvHas ((ps Sq_D_KeyValue) (k String)) Bool (>= (kvFirstU ps k) 0))
 (define-fun kvGet ((ps Sq_D_KeyValue) (k String)) String (KeyValue_Value (sq_nth_D_KeyValue ps (kvFirstU ps k))))
 
-;@chunk hop hopHost hopPort viaPort
+;@chunk hop hopHost hopPort viaPort hopHostU hopPortU viaPortU
 ; response next hop of a Via entry p (RFC 3261 18.2.2 / RFC 3581): received over sent-by host; numeric rport
 ; (only honoured together with received, as the statement says) over the sent-by port; default port 5060
 ; (5061 when the entry's transport is literally "TLS" - unobservable, TLS leads to a drop)
-(define-fun viaPort ((H_ViaParam_port (Array Int Int)) (H_ViaParam_Transport (Array Int String)) (p Int)) Int
-  (ite (not (= (select H_ViaParam_port p) 0)) (select H_ViaParam_port p)
-       (ite (= (select H_ViaParam_Transport p) "TLS") 5061 5060)))
-(define-fun hopHost ((H_ViaParam_Params (Array Int Sq_D_KeyValue)) (H_ViaParam_Host (Array Int String)) (p Int)) String
-  (ite (kvHas (select H_ViaParam_Params p) "received") (kvGet (select H_ViaParam_Params p) "received") (select H_ViaParam_Host p)))
-(define-fun hopPort ((H_ViaParam_Params (Array Int Sq_D_KeyValue)) (H_ViaParam_port (Array Int Int)) (H_ViaParam_Transport (Array Int String)) (p Int)) Int
-  (ite (and (kvHas (select H_ViaParam_Params p) "received") (kvHas (select H_ViaParam_Params p) "rport")
-            (atoiOk (kvGet (select H_ViaParam_Params p) "rport")))
-       (atoiVal (kvGet (select H_ViaParam_Params p) "rport"))
-       (viaPort H_ViaParam_port H_ViaParam_Transport p)))
+(declare-fun viaPortU ((Array Int Int) (Array Int String) Int) Int)
+(define-fun viaPort ((H_ViaParam_port (Array Int Int)) (H_ViaParam_Transport (Array Int String)) (p Int)) Int (viaPortU H_ViaParam_port H_ViaParam_Transport p))
+(assert (forall ((hp (Array Int Int)) (ht (Array Int String)) (p Int)) (! (= (viaPortU hp ht p)
+  (ite (not (= (select hp p) 0)) (select hp p) (ite (= (select ht p) "TLS") 5061 5060))) :pattern ((viaPortU hp ht p)))))
+(declare-fun hopHostU ((Array Int Sq_D_KeyValue) (Array Int String) Int) String)
+(define-fun hopHost ((H_ViaParam_Params (Array Int Sq_D_KeyValue)) (H_ViaParam_Host (Array Int String)) (p Int)) String (hopHostU H_ViaParam_Params H_ViaParam_Host p))
+(assert (forall ((hps (Array Int Sq_D_KeyValue)) (hh (Array Int String)) (p Int)) (! (= (hopHostU hps hh p)
+  (ite (kvHas (select hps p) "received") (kvGet (select hps p) "received") (select hh p))) :pattern ((hopHostU hps hh p)))))
+(declare-fun hopPortU ((Array Int Sq_D_KeyValue) (Array Int Int) (Array Int String) Int) Int)
+(define-fun hopPort ((H_ViaParam_Params (Array Int Sq_D_KeyValue)) (H_ViaParam_port (Array Int Int)) (H_ViaParam_Transport (Array Int String)) (p Int)) Int (hopPortU H_ViaParam_Params H_ViaParam_port H_ViaParam_Transport p))
+(assert (forall ((hps (Array Int Sq_D_KeyValue)) (hp (Array Int Int)) (ht (Array Int String)) (p Int)) (! (= (hopPortU hps hp ht p)
+  (ite (and (kvHas (select hps p) "received") (kvHas (select hps p) "rport") (atoiOk (kvGet (select hps p) "rport")))
+       (atoiVal (kvGet (select hps p) "rport"))
+       (viaPortU hp ht p))) :pattern ((hopPortU hps hp ht p)))))
+; the hop of an entry depends only on that entry's own fields
+(assert (forall ((hps (Array Int Sq_D_KeyValue)) (hp (Array Int Int)) (ht (Array Int String)) (hps2 (Array Int Sq_D_KeyValue)) (hp2 (Array Int Int)) (ht2 (Array Int String)) (p Int))
+  (! (=> (and (= (select hps p) (select hps2 p)) (= (select hp p) (select hp2 p)) (= (select ht p) (select ht2 p)))
+         (= (hopPortU hps hp ht p) (hopPortU hps2 hp2 ht2 p)))
+     :pattern ((hopPortU hps hp ht p) (hopPortU hps2 hp2 ht2 p)))))
+(assert (forall ((hps (Array Int Sq_D_KeyValue)) (hh (Array Int String)) (hps2 (Array Int Sq_D_KeyValue)) (hh2 (Array Int String)) (p Int))
+  (! (=> (and (= (select hps p) (select hps2 p)) (= (select hh p) (select hh2 p)))
+         (= (hopHostU hps hh p) (hopHostU hps2 hh2 p)))
+     :pattern ((hopHostU hps hh p) (hopHostU hps2 hh2 p)))))
 
 ;@chunk listeners stAddr stPort stProto
 (declare-fun stAddr (Any) String)
@@ -333,3 +346,7 @@
 (define-fun isTruthy ((s String)) Bool
   (or (= (lower s) "true") (= (lower s) "yes") (= (lower s) "1") (= (lower s) "on") (= (lower s) "t") (= (lower s) "y")))
 (declare-fun envValue (String) String)
+;@ghost hopOk (Seq Bool)
+;@ghost hopHostE (Seq String)
+;@ghost hopPortE (Seq Int)
+;@ghost hopTransportE (Seq String)
